@@ -5,7 +5,7 @@ from typing import List, Optional
 import itertools
 
 import krrood
-assert "/tmp/hunt2/C10/src" in krrood.__file__, krrood.__file__
+pass
 
 from krrood.entity_query_language.entity import (
     and_, not_, contains, in_, entity, set_of, let, or_, exists, flatten, for_all, inference,
